@@ -260,6 +260,43 @@ Fixpoint resume_scan_allocs (fuel : nat) (zeof : bool) (base : N) (view : bytes)
     end
   end.
 
+(* executable guard: no section the rescan visits declares a length shorter than its CID (such a
+   section makes the walker seek BACKWARDS into the CID it has just read, so the same bytes are
+   parsed -- and a digest buffer requested -- again and again) *)
+Fixpoint resume_sections_ok (fuel : nat) (zeof : bool) (base : N) (view : bytes) (pos : N) : bool :=
+  match fuel with
+  | O => true
+  | S f =>
+    match read_uv (drop pos view) with
+    | VOk len r1 n1 =>
+      if len =? 0 then true else
+      match cid_from_reader r1 with
+      | CfrOk n _ _ _ =>
+        if len <? n then false
+        else if (n <=? len) && (two63 <=? base + pos + n1 + len) then true
+        else resume_sections_ok f zeof base view (pos + n1 + len)
+      | _ => true
+      end
+    | _ => true
+    end
+  end.
+
+(* the first section of a payload stream (walking forward) that is shorter than its CID *)
+Fixpoint has_short_section (fuel : nat) (s : bytes) : bool :=
+  match fuel with
+  | O => false
+  | S f =>
+    match read_uv s with
+    | VOk len r1 _ =>
+      if len =? 0 then false else
+      match cid_from_reader r1 with
+      | CfrOk n _ _ _ => if len <? n then true else has_short_section f (drop len r1)
+      | _ => false
+      end
+    | _ => false
+    end
+  end.
+
 Section Resume.
   Variable hdrdec : bytes -> option (list bytes * N).
 
